@@ -1195,7 +1195,7 @@ func checkRawDescGZIP(c *core.Ctx, g *model.GenPkg, base string) {
 				if fl, ok := call.Args[0].(*ast.FuncLit); ok && len(fl.Body.List) == 1 {
 					if rs, ok := fd.Body.List[1].(*ast.ReturnStmt); ok && len(rs.Results) == 1 {
 						if as, ok := fl.Body.List[0].(*ast.AssignStmt); ok && as.Tok == token.ASSIGN && len(as.Lhs) == 1 && len(as.Rhs) == 1 {
-							got = fmt.Sprintf("%s(func() { %s = %s }); return %s", types.ExprString(call.Fun), types.ExprString(as.Lhs[0]), types.ExprString(as.Rhs[0]), types.ExprString(rs.Results[0]))
+							got = fmt.Sprintf("%s(func() { %s = %s }); return %s", types.ExprString(call.Fun), types.ExprString(as.Lhs[0]), qualExpr(g.Info, as.Rhs[0]), types.ExprString(rs.Results[0]))
 							shape = true
 						}
 					}
